@@ -30,6 +30,8 @@ def container(vec, kind):
         return list(vec)
     if kind == "tuple":
         return tuple(vec)
+    if kind == "ndarray_f":
+        return np.array(vec, dtype=float)          # what prtpy's own bins-arrays are made of
     return np.array(vec, dtype=np.int64 if all(isinstance(x, int) for x in vec) else float)
 
 
@@ -58,7 +60,7 @@ def judge(case, ctx):
              cls=f"{name}/{kind}/{'sortedflag' if flag else 'noflag'}", sample={"case": case, "value": float(got)})
 
 
-def cases_for(vec, rng, kinds=("list", "tuple", "ndarray")):
+def cases_for(vec, rng, kinds=("list", "tuple", "ndarray", "ndarray_f")):
     nb = len(vec)
     srt = sorted(vec)
     for name in NAMES:
